@@ -5,7 +5,7 @@
                               (ids ..) (rs ..) (reg (tuples ..) (types ..))   [model run]
      (oracle (reg (tuples TU..) (types TY..)) (depth n) (cap c) (checks CHK..))
         CHK ::= (sound a b) | (disjoint a b) | (isect a b r) | (compl o n r) | (dom t) | (count t)
-        prints (o R..),  R ::= ok | (cex VALUE) | 0 | 1 | COUNT
+        prints (o R..),  R ::= ok | nodom | (cex VALUE) | 0 | 1 | COUNT
    The registry of an oracle line is loaded verbatim (no dedup): it is the dump of the REAL
    Program after the calls. *)
 open Types_model
@@ -132,11 +132,14 @@ let run_oracle args =
       match c with
       | Sexp.List (Sexp.Atom h :: a) ->
         let id k = nat_atom (List.nth a k) in
+        (* the statements are about the domain `closedb` only; outside it (e.g. unguarded cycles, on
+           which the enumeration walk is exponential in its fuel) nothing is enumerated *)
+        let indom () = closedb reg (id 0) && closedb reg (id 1) in
         (match h with
-         | "sound" -> show (cex_sound reg walk_fuel cap depth (id 0) (id 1))
-         | "disjoint" -> show (cex_disjoint reg walk_fuel cap depth (id 0) (id 1))
-         | "isect" -> show (cex_intersect reg walk_fuel cap depth (id 0) (id 1) (id 2))
-         | "compl" -> show (cex_complement reg walk_fuel cap depth (id 0) (id 1) (id 2))
+         | "sound" -> if indom () then show (cex_sound reg walk_fuel cap depth (id 0) (id 1)) else "nodom"
+         | "disjoint" -> if indom () then show (cex_disjoint reg walk_fuel cap depth (id 0) (id 1)) else "nodom"
+         | "isect" -> if indom () then show (cex_intersect reg walk_fuel cap depth (id 0) (id 1) (id 2)) else "nodom"
+         | "compl" -> if indom () then show (cex_complement reg walk_fuel cap depth (id 0) (id 1) (id 2)) else "nodom"
          | "dom" -> if closedb reg (id 0) then "1" else "0"
          | "count" -> string_of_int (i (count reg walk_fuel cap depth (id 0)))
          | _ -> failwith ("bad check " ^ h))
